@@ -32,7 +32,10 @@
    * at the root (do): a response-base field under EnableThriftBase with a BaseResp in the context is skipped as a STRUCT and
      produces no member ([t2j_walk_root]; what FastRead stores into the context is compared by check 301 only).
 
-   NOT modelled: ConvertException, EnableHttpMapping, descriptors built with SetOptionalBitmap, IDL default values,
+   * ConvertException at the root ([walk_fields_x], [t2j_walk_rootx]): the exception field's JSON (plus what handleUnsets
+     appends) is the text of the returned error.
+
+   NOT modelled: EnableHttpMapping, descriptors built with SetOptionalBitmap, IDL default values,
    the pooled / caller-supplied output buffer (DoInto).  Option bits as in T2J.v / T2JUnset.v. *)
 From Coq Require Import ZArith List Bool.
 From DG Require Import ProtoWireRef ThriftWire Json Num Base64 T2J T2JUnset.
@@ -78,6 +81,9 @@ Definition bm_clear (id : Z) (bm : list Z) : list Z := filter (fun i => negb (i 
 Definition bm_isset (bm : list Z) (id : Z) : bool := existsb (fun i => i =? id) bm.
 Definition bm_missing (fs : list (fmeta * tdesc)) (bm : list Z) : bool :=
   existsb (fun f => (f_req (fst f) =? 1) && bm_isset bm (f_id (fst f))) fs.
+
+(* the result of do: a JSON text, or (ConvertException) the JSON of an exception field returned as the error *)
+Inductive wres := WText (t : list Z) | WExc (t : list Z).
 
 Section Walk.
   Variable fd : Z -> list Z.     (* the lexeme written for a finite double *)
@@ -176,7 +182,29 @@ Section Walk.
     | DList _ _ => [91; 93]
     end.
 
-  (* handleUnsets at STOP: fs in ascending id; returns the text up to and including the closing brace *)
+  (* handleUnsets: fs in ascending id; returns the text of the written members followed by [close]
+     ([125] at STOP of a struct; nothing after a ConvertException field, where no closing brace is written) *)
+  Fixpoint walk_unsets_c (close : list Z) (fs : list (fmeta * tdesc)) (bm : list Z) (comma : bool) : option (list Z) :=
+    match fs with
+    | [] => Some close
+    | f :: r =>
+      if negb (bm_isset bm (f_id (fst f))) then walk_unsets_c close r bm comma
+      else if f_req (fst f) =? 1 then
+        (if o_write_required o
+         then match walk_unsets_c close r bm true with
+              | Some tl => Some (sep comma ++ quote_ref (f_key (fst f)) ++ 58 :: zero_text (snd f) ++ tl)
+              | None => None
+              end
+         else None)
+      else if (f_req (fst f) =? 0) && o_write_default o then
+        match walk_unsets_c close r bm true with
+        | Some tl => Some (sep comma ++ quote_ref (f_key (fst f)) ++ 58 :: zero_text (snd f) ++ tl)
+        | None => None
+        end
+      else walk_unsets_c close r bm comma
+    end.
+  (* at STOP of a struct: the same scan closed by the brace (kept as its own fixpoint: = walk_unsets_c [125],
+     proofs/T2JBytesProofs.v walk_unsets_is_c) *)
   Fixpoint walk_unsets (fs : list (fmeta * tdesc)) (bm : list Z) (comma : bool) : option (list Z) :=
     match fs with
     | [] => Some [125]
@@ -279,6 +307,60 @@ Section Walk.
       end.
   End Loops.
 
+  (* the root loop of do under ConvertException: a known field with a non-zero id is a thrift exception — the output is reset
+     to the field's value alone, the loop breaks (the fields after it are not read: their bits stay set), handleUnsets appends
+     what it writes (no closing brace), and the text is returned AS THE ERROR.  Without such a field: the plain loop. *)
+  Section LoopsX.
+    Variable rec : tdesc -> list Z -> option (list Z * list Z).
+    Variable bx : fmeta -> bool.
+
+    Fixpoint walk_fields_x (fuel : nat) (fs : list (fmeta * tdesc)) (comma : bool) (bm : list Z) (bs : list Z) : option wres :=
+      match fuel with
+      | O => None
+      | S f =>
+        match bs with
+        | [] => None
+        | t :: r =>
+          if negb (valid_ttype t) then None
+          else if t =? 0 then match walk_unsets (sort_flds fs) bm comma with Some tl => Some (WText tl) | None => None end
+          else
+            match rd_int 2 r with
+            | None => None
+            | Some (id, r2) =>
+              match find_field fs id with
+              | None =>
+                if o_disallow_unknown o then None
+                else match skip_go t r2 with
+                     | None => None
+                     | Some r3 => walk_fields_x f fs comma bm r3
+                     end
+              | Some fl =>
+                if bx (fst fl) then
+                  match skip_go T_STRUCT r2 with
+                  | None => None
+                  | Some r3 => walk_fields_x f fs comma (bm_clear id bm) r3
+                  end
+                else
+                match (if o_value_mapping o && f_jsconv (fst fl) then walk_vm (snd fl) r2 else rec (snd fl) r2) with
+                | None => None
+                | Some (txt, r3) =>
+                  if negb (id =? 0) then
+                    match walk_unsets_c [] (sort_flds fs) (bm_clear id bm) true with
+                    | Some tl => Some (WExc (txt ++ tl))
+                    | None => None
+                    end
+                  else
+                    match walk_fields_x f fs true (bm_clear id bm) r3 with
+                    | Some (WText tl) => Some (WText (sep comma ++ quote_ref (f_key (fst fl)) ++ 58 :: txt ++ tl))
+                    | other => other
+                    end
+                end
+              end
+            end
+        end
+      end.
+  End LoopsX.
+
   (* doRecurse; n bounds the nesting of containers (scalars and strings need none) *)
   Fixpoint t2j_walk_gen (n : nat) (d : tdesc) (bs : list Z) {struct n} : option (list Z * list Z) :=
     match d with
@@ -348,6 +430,19 @@ Definition t2j_walk_root (fd : Z -> list Z) (o : Z) (n : nat) (d : tdesc) (bs : 
   | _, _ => t2j_walk_gen fd o n d bs
   end.
 
+(* do with every modelled option, ConvertException included (what follows the value is not returned: do has no cursor) *)
+Definition t2j_walk_rootx (fd : Z -> list Z) (o : Z) (n : nat) (d : tdesc) (bs : list Z) : option wres :=
+  match d, n with
+  | DStruct fs, S n' =>
+    if o_convert_exception o then
+      match walk_fields_x fd o (t2j_walk_gen fd o n') (root_bx o) (S (length bs)) fs false (bm_init fs) bs with
+      | Some (WText t) => Some (WText (123 :: t))
+      | other => other
+      end
+    else match t2j_walk_root fd o n d bs with Some (t, _) => Some (WText t) | None => None end
+  | _, _ => match t2j_walk_root fd o n d bs with Some (t, _) => Some (WText t) | None => None end
+  end.
+
 (* the walk with the spec's double lexeme (the exact decimal of the bits) *)
 Definition t2j_walk (n : nat) (o : Z) (d : tdesc) (bs : list Z) : option (list Z * list Z) :=
   t2j_walk_gen f64_exact_lexeme o n d bs.
@@ -368,6 +463,45 @@ Fixpoint to_json_fd (fd : Z -> list Z) (e : jexp) : json :=
   | EQuoted e' => match to_json_fd fd e' with JNum l => JStr l | j => j end
   | EArr xs => JArr (map (to_json_fd fd) xs)
   | EObj ms => JObj (map (fun m => (fst m, to_json_fd fd (snd m))) ms)
+  end.
+
+(* ---- the text of an expected tree, printed directly (no detour through the JSON AST): what the converter writes.
+   A quoted number (Int642String, api.js_conv) is the number's text between quotes — for a double the lexeme fd b as it is;
+   with escape-free lexemes this is json_print (to_json_fd fd e) (proofs/T2JBytesProofs.v jexp_print_json) ---- *)
+Section EPrint.
+  Variable pr : jexp -> list Z.
+  Fixpoint eprint_tail (l : list jexp) : list Z :=
+    match l with [] => [93] | y :: l' => 44 :: pr y ++ eprint_tail l' end.
+  Definition eprint_member (m : list Z * jexp) : list Z := quote_ref (fst m) ++ 58 :: pr (snd m).
+  (* members, each preceded by a comma; no closing brace *)
+  Fixpoint eprint_mems (l : list (list Z * jexp)) : list Z :=
+    match l with [] => [] | m :: l' => 44 :: eprint_member m ++ eprint_mems l' end.
+End EPrint.
+
+Fixpoint jexp_print (fd : Z -> list Z) (e : jexp) : list Z :=
+  match e with
+  | EBool b => if b then lit_true else lit_false
+  | EInt z => fmt_int z
+  | EDouble b => fd b
+  | EStr s | EStrV s => quote_ref s
+  | EByteV z => 34 :: fmt_int z ++ [34]
+  | EQuoted e' =>
+    match e' with
+    | EInt z => 34 :: fmt_int z ++ [34]
+    | EDouble b => 34 :: fd b ++ [34]
+    | _ => jexp_print fd e'              (* as T2J.to_json: only numbers are quoted *)
+    end
+  | EArr xs => 91 :: match xs with [] => [93] | x :: l => jexp_print fd x ++ eprint_tail (jexp_print fd) l end
+  | EObj ms => 123 :: match ms with
+                      | [] => [125]
+                      | m :: l => eprint_member (jexp_print fd) m ++ eprint_mems (jexp_print fd) l ++ [125]
+                      end
+  end.
+
+Definition spec_text_p (fd : Z -> list Z) (t : tres) : option (list Z) :=
+  match t with
+  | TOk e => if jexp_finite e then Some (jexp_print fd e) else None
+  | _ => None
   end.
 
 (* what the spec says the text is: the canonical print of the expected tree when every double in it has a spelling *)
